@@ -4,6 +4,7 @@ from __future__ import annotations
 
 from ..common import Report, main_wrapper, scratch
 from ..edgecheck import collect_edges, decide_edges
+from ..testrec import add_test_edges
 from .args import parse
 
 MODULES = ["harness.corpus.basic", "harness.corpus.depmat"]
@@ -17,6 +18,9 @@ def main():
     edges = collect_edges(MODULES, a.tier, cap=10 if quick else 40, depth2=1 if quick else 6,
                           select=sel, nshards=4)
     with scratch() as d:
+        if not a.only:
+            # the repository's own tests, recorded: every derivation step they perform is an edge too
+            edges += add_test_edges(rep, a.tier, d)[0]
         decide_edges(rep, edges, {"safety", "uninit", "scope"}, stepbound=6000 if quick else 50000, workdir=d)
     rep.cov["rule"] = ("one case = one accepted derivation edge; the derived procedure must be statically WellScoped "
                        "(ExoProgram!WellScoped evaluated by TLC), must raise no safety trap (out-of-bounds, callee assertion, "
